@@ -53,6 +53,7 @@ func (hp *HTTPProxy) errorResponse(req *http.Request, err error) *http.Response 
 		handleTLSCertificateError,
 		handleTLSECHRejectionError,
 		handleTLSAlertError,
+		handleTLSHandshakeError,
 		handleMartianErrorStatus,
 		handleAuthenticationError,
 		handleDenyError,
@@ -207,6 +208,26 @@ func handleTLSAlertError(req *http.Request, err error) (code int, msg, label str
 		code = http.StatusBadGateway
 		msg = fmt.Sprintf("tls alert for host %q", req.Host)
 		label = "tls_alert"
+	}
+
+	return
+}
+
+// handleTLSHandshakeError covers the handshake failures that crypto/tls and net/http report as
+// plain errors: the peer selected a protocol version or a cipher suite that was not offered,
+// sent a malformed message ("tls: ..."), or did not answer in time.
+func handleTLSHandshakeError(req *http.Request, err error) (code int, msg, label string) {
+	for e := err; e != nil && code == 0; e = errors.Unwrap(e) {
+		switch s := e.Error(); {
+		case s == "net/http: TLS handshake timeout":
+			code = http.StatusGatewayTimeout
+			msg = fmt.Sprintf("tls handshake timed out for host %q", req.Host)
+			label = "tls_handshake_timeout"
+		case strings.HasPrefix(s, "tls: "):
+			code = http.StatusBadGateway
+			msg = fmt.Sprintf("tls handshake failed for host %q", req.Host)
+			label = "tls_handshake"
+		}
 	}
 
 	return
